@@ -130,6 +130,9 @@ namespace pika {
                 join();
                 PIKA_VERIF_POST("jt.joined", &thread_, threads::detail::verif_self(), 0);
             }
+#if defined(PIKA_VERIF_HOOKS)
+            else { PIKA_VERIF_POST("jt.skip", &thread_, threads::detail::verif_self(), 0); }
+#endif
         }
 
         jthread(jthread const&) = delete;
